@@ -11,8 +11,10 @@ import sys
 import time
 
 ROOT = os.path.dirname(os.path.dirname(os.path.abspath(__file__)))
-EVIDENCE_DIR = os.path.join(ROOT, 'evidence')
-REPLAY_DIR = os.path.join(ROOT, 'replays')
+# the two overrides exist for tools/seeded.py only (runs against deliberately broken trees must
+# not overwrite the evidence of the real tree)
+EVIDENCE_DIR = os.environ.get('VERIF_EVIDENCE_DIR') or os.path.join(ROOT, 'evidence')
+REPLAY_DIR = os.environ.get('VERIF_REPLAY_DIR') or os.path.join(ROOT, 'replays')
 KNOWN = os.path.join(ROOT, 'known_findings.json')
 
 CLAIMED = ('C08', 'C09', 'C10', 'C11', 'C12', 'C13', 'C19', 'C20')
